@@ -115,6 +115,19 @@ def misc(bits_max, kv_bits):
                     a.bad("nibbles_roundtrip", "nibbles_to_bytes / bytes_to_nibbles are not mutually inverse", nibbles=ns)
             except Exception as e:  # noqa
                 a.bad("conversion_raised", f"nibble conversion raised {type(e).__name__}", nibbles=ns)
+    for n in range(0, 4):
+        for ns in itertools.product((0, 5, 15, 16, 17, -1), repeat=n):
+            a.evals += 1
+            try:
+                b = nibbles_to_bytes(ns)
+            except Exception:  # noqa  (refusing is fine; which exception is not this property's business)
+                a.stats["nibbles_refused"] += 1
+                continue
+            try:
+                if tuple(bytes_to_nibbles(b)) != ns:
+                    a.bad("nibbles_roundtrip", "nibbles_to_bytes accepted a sequence that does not convert back to itself", nibbles=ns, packed=b)
+            except Exception as e:  # noqa
+                a.bad("conversion_raised", f"bytes_to_nibbles raised {type(e).__name__}", nibbles=ns)
     for n in (0, 8, 16):
         for bs in itertools.product((0, 1), repeat=n):
             a.evals += 1
